@@ -2,6 +2,7 @@ package main
 
 import (
 	"encoding/json"
+	"errors"
 	"fmt"
 	"math/rand"
 	"os"
@@ -10,6 +11,7 @@ import (
 	"strconv"
 	"strings"
 	"sync"
+	"sync/atomic"
 	"time"
 
 	"github.com/containerd/nri/pkg/adaptation"
@@ -84,28 +86,68 @@ type histPlan struct {
 	stop    []int       // positions in plugins of the plugins that stop after phase 2 …
 	phase3  []api.Event // … and the requests fired after that (no registration follows)
 	g       int
+	sleep   time.Duration // every plugin's handler (not the observer's) takes this long
 }
+
+// errStalled: the real Adaptation stopped answering; the history is a failing case, not a harness failure.
+type errStalled struct {
+	what string
+	info map[string]interface{}
+}
+
+func (e *errStalled) Error() string { return e.what }
 
 func runHistory(c *hx.Ctx, r *rand.Rand, stream string, hid int, plan histPlan) (*evCase, error) {
 	e, err := newEnv(c.Out)
 	if err != nil {
 		return nil, err
 	}
-	defer e.close()
 	obs := newPlug(e, "00", "obs", api.ValidEvents)
+	var plugs []*plug
+	defer func() {
+		// never wait for a wedged adaptation: stop everything in the background, bounded
+		var sg sync.WaitGroup
+		for _, p := range append([]*plug{obs}, plugs...) {
+			if p == nil {
+				continue
+			}
+			sg.Add(1)
+			go func(p *plug) {
+				defer sg.Done()
+				p.stop()
+			}(p)
+		}
+		groupWithin(&sg, 3*time.Second)
+		e.closeWithin(5 * time.Second)
+	}()
 	if err := obs.startStub(e.sock); err != nil {
 		return nil, fmt.Errorf("observer: %w", err)
 	}
-	defer obs.stop()
 	if err := e.waitSynced(10*time.Second, obs); err != nil {
 		return nil, err
 	}
 
 	var (
-		mu      sync.Mutex
-		results = map[int]reqResult{}
-		wg      sync.WaitGroup
+		mu       sync.Mutex
+		results  = map[int]reqResult{}
+		wg       sync.WaitGroup
+		progress atomic.Int64
+		issued   atomic.Int64
 	)
+	// waitAll waits for the requests in flight; a stall = no request returned for wedgeWait
+	waitAll := func(phase string) error {
+		done := make(chan struct{})
+		go func() {
+			wg.Wait()
+			close(done)
+		}()
+		if waitProgress(done, &progress, wedgeWait) {
+			return nil
+		}
+		return &errStalled{
+			what: fmt.Sprintf("%s: for %v no request returned (%d of %d issued requests had returned): the runtime is deadlocked", phase, wedgeWait, progress.Load(), issued.Load()),
+			info: map[string]interface{}{"stream": stream, "history": hid, "phase": phase, "plugins": plan.plugins, "goroutines": plan.g, "requests_returned": progress.Load(), "requests_issued": issued.Load()}}
+	}
 	fireAll := func(evs []api.Event, base, g int) {
 		ch := make(chan int, len(evs))
 		for i := range evs {
@@ -118,7 +160,9 @@ func runHistory(c *hx.Ctx, r *rand.Rand, stream string, hid int, plan histPlan) 
 				defer wg.Done()
 				for i := range ch {
 					rid := base + i
+					issued.Add(1)
 					res := e.fire(mkRequest(rid, evs[i]))
+					progress.Add(1)
 					mu.Lock()
 					results[rid] = res
 					mu.Unlock()
@@ -127,7 +171,7 @@ func runHistory(c *hx.Ctx, r *rand.Rand, stream string, hid int, plan histPlan) 
 		}
 	}
 
-	plugs := make([]*plug, len(plan.plugins))
+	plugs = make([]*plug, len(plan.plugins))
 	delays := make([]time.Duration, len(plan.plugins))
 	for i := range plan.plugins {
 		delays[i] = time.Duration(r.Intn(3000)) * time.Microsecond
@@ -139,6 +183,10 @@ func runHistory(c *hx.Ctx, r *rand.Rand, stream string, hid int, plan histPlan) 
 	for i := range plan.plugins {
 		sp := &plan.plugins[i]
 		p := newPlug(e, sp.Idx, sp.Name, api.EventMask(sp.Raw))
+		if plan.sleep > 0 {
+			d := plan.sleep
+			p.setDecide(func(request) action { return action{Sleep: d} })
+		}
 		plugs[i] = p
 		rg.Add(1)
 		go func(i int, p *plug, sp *evPlugin) {
@@ -152,13 +200,13 @@ func runHistory(c *hx.Ctx, r *rand.Rand, stream string, hid int, plan histPlan) 
 			}
 		}(i, p, sp)
 	}
-	rg.Wait()
-	wg.Wait()
-	defer func() {
-		for _, p := range plugs {
-			p.stop()
-		}
-	}()
+	if !groupWithin(&rg, 60*time.Second) {
+		return nil, &errStalled{what: "plugin registrations had not finished after 60 s: the runtime is blocked",
+			info: map[string]interface{}{"stream": stream, "history": hid, "plugins": plan.plugins}}
+	}
+	if err := waitAll("requests issued while plugins register"); err != nil {
+		return nil, err
+	}
 	// every registration attempt ends in a Synchronize call or in the runtime closing the connection
 	for i, p := range plugs {
 		if startErr[i] != nil {
@@ -173,14 +221,19 @@ func runHistory(c *hx.Ctx, r *rand.Rand, stream string, hid int, plan histPlan) 
 			return nil, fmt.Errorf("history %d: plugin %s neither synchronized nor refused", hid, p.name)
 		}
 	}
-	e.barrier()
+	if !e.barrierWithin(wedgeWait) {
+		return nil, &errStalled{what: "the plugin synchronisation lock could not be taken for 20 s after all registrations were done",
+			info: map[string]interface{}{"stream": stream, "history": hid, "plugins": plan.plugins}}
+	}
 	hi := obs.count()
 	if hi != len(plan.phase1) {
 		return nil, fmt.Errorf("history %d: observer saw %d of %d phase-1 requests", hid, hi, len(plan.phase1))
 	}
 	// phase 2
 	fireAll(plan.phase2, 1+len(plan.phase1), plan.g)
-	wg.Wait()
+	if err := waitAll("concurrent requests"); err != nil {
+		return nil, err
+	}
 	// phase 3: some plugins stop (orderly for stubs, abruptly for raw sessions); further requests, no registration
 	gonePos := obs.count()
 	for _, i := range plan.stop {
@@ -196,7 +249,9 @@ func runHistory(c *hx.Ctx, r *rand.Rand, stream string, hid int, plan histPlan) 
 	}
 	if len(plan.phase3) > 0 {
 		fireAll(plan.phase3, 1+len(plan.phase1)+len(plan.phase2), plan.g)
-		wg.Wait()
+		if err := waitAll("requests after a plugin stopped"); err != nil {
+			return nil, err
+		}
 	}
 
 	// ---- collect
@@ -430,6 +485,17 @@ func driveEvents(c *hx.Ctx) error {
 	adaptation.SetPluginRequestTimeout(10 * time.Second)
 	adaptation.SetPluginRegistrationTimeout(10 * time.Second)
 	imports := "From NRI Require Import Model.Dispatch Spec.DispatchSpec Run.Common Run.RunDispatch."
+	// a history in which the runtime stopped answering is a failing case; the driver then ends (its
+	// goroutines blocked in the dead adaptation are abandoned)
+	stalled := func(err error) bool {
+		var st *errStalled
+		if errors.As(err, &st) {
+			c.ImplFail(fmt.Sprint(st.info["stream"]), st.what, st.info)
+			c.Eval("stalled-history", true)
+			return true
+		}
+		return false
+	}
 	emit := func(sh *hx.Shard, cs *evCase) {
 		sh.Add(evCaseTerm(cs), cs)
 		if why := historyOracle(cs); why != "" {
@@ -484,6 +550,9 @@ func driveEvents(c *hx.Ctx) error {
 			plan.phase1, plan.phase2 = toEv(k.Phase1), toEv(k.Phase2)
 			cs, err := runHistory(c, cr, "corpus", h, plan)
 			if err != nil {
+				if stalled(err) {
+					return nil
+				}
 				return err
 			}
 			emit(cshard, cs)
@@ -529,6 +598,9 @@ func driveEvents(c *hx.Ctx) error {
 		}
 		cs, err := runHistory(c, r, "histories", h, plan)
 		if err != nil {
+			if stalled(err) {
+				return nil
+			}
 			return err
 		}
 		emit(sh, cs)
@@ -584,11 +656,60 @@ func driveEvents(c *hx.Ctx) error {
 		plan.phase3 = randEvents(rl, 12+rl.Intn(10))
 		cs, err := runHistory(c, rl, "leave", h, plan)
 		if err != nil {
+			if stalled(err) {
+				return nil
+			}
 			return err
 		}
 		emit(ls, cs)
 		c.Eval(fmt.Sprintf("leave/%d/%d", c.Seed, h), true)
 		c.Count(fmt.Sprintf("events.leave.rank_%d_of_%d", rank, k), 1)
+	}
+
+	// --- stream "budget": the request time-out bounds each CALL, not the whole request: with a short
+	// time-out T, three or four all-events plugins whose handlers each take 0.42 T (together more than T)
+	// must each be asked once, in index order, for every event, and still be there for the next one
+	{
+		const budgetT = 600 * time.Millisecond
+		adaptation.SetPluginRequestTimeout(budgetT)
+		rb := c.Rand("events/budget")
+		bs := c.NewShard("budget", imports, "ev_case", "corr_events", "holds_events", 20)
+		stateChange := []api.Event{api.Event_RUN_POD_SANDBOX, api.Event_STOP_POD_SANDBOX, api.Event_REMOVE_POD_SANDBOX,
+			api.Event_POST_CREATE_CONTAINER, api.Event_START_CONTAINER, api.Event_POST_START_CONTAINER,
+			api.Event_POST_UPDATE_CONTAINER, api.Event_REMOVE_CONTAINER, api.Event_POST_UPDATE_POD_SANDBOX}
+		for h := 0; h < c.Pick(2, 8); h++ {
+			mk := func() histPlan {
+				k := 3 + h%2
+				plan := histPlan{g: 1, sleep: budgetT * 42 / 100}
+				for i, ix := range rb.Perm(99)[:k] {
+					plan.plugins = append(plan.plugins, evPlugin{ID: i + 1, Idx: fmt.Sprintf("%02d", ix+1), Name: fmt.Sprintf("B%d", i+1), Raw: int32(api.ValidEvents), Kind: "stub"})
+				}
+				// two state-change events, then one of the four request types
+				plan.phase2 = []api.Event{stateChange[rb.Intn(len(stateChange))], stateChange[rb.Intn(len(stateChange))],
+					[]api.Event{api.Event_CREATE_CONTAINER, api.Event_UPDATE_CONTAINER, api.Event_STOP_CONTAINER, api.Event_UPDATE_POD_SANDBOX}[rb.Intn(4)]}
+				return plan
+			}
+			var cs *evCase
+			for try := 0; try < 3; try++ {
+				// a handler that takes 0.42 T is judged against the clock: a failing history is re-run (same shape) before it is reported
+				var err error
+				cs, err = runHistory(c, rb, "budget", h, mk())
+				if err != nil {
+					adaptation.SetPluginRequestTimeout(10 * time.Second)
+					if stalled(err) {
+						return nil
+					}
+					return err
+				}
+				if historyOracle(cs) == "" {
+					break
+				}
+			}
+			emit(bs, cs)
+			c.Eval(fmt.Sprintf("budget/%d/%d", c.Seed, h), true)
+			c.Count("events.budget.histories", 1)
+		}
+		adaptation.SetPluginRequestTimeout(10 * time.Second)
 	}
 
 	// --- stream "sweep": masks x the thirteen events; every mask 1..ValidEvents in the
@@ -621,6 +742,9 @@ func driveEvents(c *hx.Ctx) error {
 		}
 		cs, err := runHistory(c, rs, "sweep", h, plan)
 		if err != nil {
+			if stalled(err) {
+				return nil
+			}
 			return err
 		}
 		emit(sw, cs)
@@ -647,6 +771,9 @@ func driveEvents(c *hx.Ctx) error {
 		}
 		cs, err := runHistory(c, rw, "wiremasks", h, plan)
 		if err != nil {
+			if stalled(err) {
+				return nil
+			}
 			return err
 		}
 		emit(ws, cs)
@@ -660,6 +787,6 @@ func driveEvents(c *hx.Ctx) error {
 		c.Eval(fmt.Sprintf("wire/%d/%d", c.Seed, h), true)
 	}
 	c.Stats.Exhaustive = !c.Quick()
-	c.Stats.Rule = "histories: a fresh Adaptation per history, an all-events observer at index 00, 2-8 plugins (real stub or hand-made mux+ttrpc session) with random and equal indices and random masks registering in random order/timing while 0-24 requests run, then 30-59 requests over the thirteen entry points from 1-6 concurrent goroutines; non-trivial = concurrent callers or a plugin registered amid requests; in a third of the histories one or two plugins stop after two thirds of the requests. leave: 4-6 all-events plugins with distinct indices, the plugin of each index rank in turn stops mid-history, 12-21 further requests without any registration. sweep: eight masks per history x all thirteen events (thorough: every mask 1..ValidEvents, exhaustive; quick: 256 sampled masks). wiremasks: masks only a raw session can send (0 = everything, bits outside ValidEvents, sign bit)."
+	c.Stats.Rule = "histories: a fresh Adaptation per history, an all-events observer at index 00, 2-8 plugins (real stub or hand-made mux+ttrpc session) with random and equal indices and random masks registering in random order/timing while 0-24 requests run, then 30-59 requests over the thirteen entry points from 1-6 concurrent goroutines; non-trivial = concurrent callers or a plugin registered amid requests; in a third of the histories one or two plugins stop after two thirds of the requests. leave: 4-6 all-events plugins with distinct indices, the plugin of each index rank in turn stops mid-history, 12-21 further requests without any registration. budget: request time-out 600 ms, 3-4 all-events plugins whose handlers each take 0.42 x the time-out (together more than the time-out), two state-change events and one request; sweep: eight masks per history x all thirteen events (thorough: every mask 1..ValidEvents, exhaustive; quick: 256 sampled masks). wiremasks: masks only a raw session can send (0 = everything, bits outside ValidEvents, sign bit)."
 	return nil
 }
